@@ -143,6 +143,13 @@ func invalidCorpus() []CorpusReq {
 		add(name+"-max-below-min-ratio-zero", b1(name, M{"ratio": 0.0, "min": 2, "max": 1}))
 		add(name+"-max-below-min-ratio-one", b1(name, M{"ratio": 1.0, "min": 3, "max": 2}))
 	}
+	// the violation sits in a LATER bias: earlier biases have already been applied when the request is rejected
+	core0 := biasAlphabet(0)
+	for ai, first := range []M{core0[4], core0[6], core0[8], core0[2], core0[0]} {
+		add(fmt.Sprintf("later-bias-omission-ratio-above-one-after-%d", ai), withBiases(ws, []M{first, bias("criteriaOmission", M{"ratio": 1.5})}))
+		add(fmt.Sprintf("later-bias-reversal-unknown-ordering-after-%d", ai), withBiases(ws, []M{first, bias("preferenceReversal", M{"ratio": 0.5, "ordering": "alphabetical"})}))
+		add(fmt.Sprintf("later-bias-mixing-ratio-above-one-after-%d", ai), withBiases(ws, []M{first, bias("criteriaMixing", M{"mixingRatio": 2.0})}))
+	}
 	add("mixing-ratio-above-one", b1("criteriaMixing", M{"mixingRatio": 1.5}))
 	add("mixing-ratio-negative", b1("criteriaMixing", M{"mixingRatio": -0.5}))
 	add("mixing-unknown-reference-type", b1("criteriaMixing", M{"referenceCriterionType": "strongest"}))
